@@ -391,8 +391,17 @@ def check_fifo(eng, run):
         raise AnalysisError("anchor vanished: _DatagramListenerServeContext.handle")
     spawns = [x for x in own_nodes(h.node) if isinstance(x, ast.Call) and isinstance(x.func, ast.Attribute) and x.func.attr == "start_soon"]
     ok = len(spawns) == 1 and not any(isinstance(x, (ast.For, ast.While)) for x in own_nodes(h.node))
+    if ok:
+        # ... unconditionally, and the task carries this very datagram (both parameters of handle() are handed to start_soon):
+        # a shared dispatcher task would serialise clients - the first client's long-lived handler blocks everybody behind it
+        sp = spawns[0]
+        top_level = any(isinstance(st, ast.Expr) and st.value is sp for st in h.node.body)
+        ps = [a.arg for a in h.params()][1:]
+        carries = all(any(isinstance(a, ast.Name) and a.id == p_ for a in sp.args) for p_ in ps) and len(ps) >= 2
+        ok = top_level and carries
     if not ok:
-        run.finding("C16.fifo", h, h.node, "the listener no longer starts exactly one task per datagram in callback order")
+        run.finding("C16.fifo", h, h.node, "the listener no longer starts exactly one task per datagram, unconditionally and carrying that datagram, in callback order: "
+                    "datagrams funnelled through a shared dispatcher wait behind the first client's handler (cross-client blocking)")
     run.ob("C16.fifo", f"{h.short}:one-task-per-datagram", ok)
     # drain of delayed datagrams is in order: `while queue: handle(*queue.popleft())`
     # C16.iso: per-client condition variable
@@ -404,11 +413,31 @@ def check_fifo(eng, run):
     run.ob("C16.iso", "_ClientData:per-client-condition", ok)
 
 
+def check_nothing_dropped(eng, run):
+    """a datagram taken out of a client's queue reaches the handler: no cancellable suspension point, raising call or exit while a local
+    still holds it (hold typestate of C10, datagram semantics: an empty payload is a datagram)"""
+    from rules import c10
+    from sa.analyses.hold import HoldAnalysis
+    from sa.report import RuleAlias
+    n = 0
+    for fn in eng.db.all_functions():
+        if isinstance(fn.node, ast.Lambda) or not fn.is_async or not fn.module.name.startswith("easynetwork.lowlevel.api_async.servers.datagram"):
+            continue
+        probe = HoldAnalysis(eng)
+        probe.fn = fn
+        if not any(isinstance(x, ast.Call) and probe.is_source_call(x) for x in own_nodes(fn.node)):
+            continue
+        n += 1
+        c10.check_hold(eng, RuleAlias(run, "C16.fifo"), fn, "C16.fifo")
+    run.floor("C16.fifo datagram-server functions taking a datagram out of a queue", n, 2)
+
+
 def run(eng, run):
     run.not_decided += NOT_DECIDED
     check_state(eng, run)
     check_single_and_atomic(eng, run)
     check_fifo(eng, run)
+    check_nothing_dropped(eng, run)
 
 
 # ---------------------------------------------------------------------------------------------- self-test corpus
@@ -467,4 +496,16 @@ BENIGN = [
             why="state cached in a local right before the test"),
     Variant("hook-rename-param-use", _HOOK, lambda fn: insert_before(fn, stmt_is("client_data.mark_done()"), "data = client_data"), why="unrelated local"),
     Variant("push-rename", _CD + ".push_datagram", lambda fn: rename_local(fn, "queue_condition", "cond"), why="local renamed"),
+]
+
+
+_POP = "lowlevel.api_async.servers.datagram:_ClientData.pop_datagram"
+_HANDLE = "lowlevel.api_async.backend._asyncio.datagram.listener:_DatagramListenerServeContext.handle"
+MUTANTS += [
+    Variant("pop-datagram-cancellable-checkpoint-after-the-pop", _POP,
+            lambda fn: replace_stmt(fn, stmt_has("return queue.popleft()"), "datagram = queue.popleft()\nawait self.__backend.coro_yield()\nreturn datagram"), "C16.fifo",
+            why="a yielded timeout of 0 with a datagram already queued loses that datagram (seed C16-4)"),
+    Variant("listener-funnels-datagrams-through-one-dispatcher", _HANDLE,
+            lambda fn: setattr(fn, "body", ast.parse("self.pending.append((data, addr))\nif len(self.pending) == 1:\n    self.task_group.start_soon(self._dispatch_pending)").body), "C16.fifo",
+            why="the first client's long-lived handler blocks every datagram behind it (seed C16-6)"),
 ]
